@@ -1448,7 +1448,7 @@ def branches(body, var):
         return int_value(tok)
     v = re.escape(var)
     m = re.search(r"\bif\s+(?:" + v + r"\s*==\s*([^{&|]+?)|([^{&|=]+?)\s*==\s*" + v + r")\s*\{", body)
-    mm = re.search(r"\bmatch\s+\*?" + v + r"(?:\.as_str\(\)|\.as_bytes\(\)|\.as_ref\(\))?\s*\{", body)
+    mm = re.search(r"\bmatch\s+[&*]?" + v + r"(?:\.\w+\(\))*\s*\{", body)
     if m and (not mm or m.start() < mm.start()):
         i = m.start()
         while True:
@@ -1928,8 +1928,20 @@ def main():
         wl = re.search(r"\bwhile\b[^{]*\{", b)
         loop = item_body(b[wl.start():], r"\{", "loop over the runs")
         lm = re.search(r"let\s+(\w+)\s*(?::\s*u8)?\s*=\s*\*?\w+\[\s*\w+\s*\]\s*;", loop)
-        v = lm.group(1)
-        t = tabulate_local(loop, v, enc, scopes=[b])
+        if lm:
+            v, names = lm.group(1), [lm.group(1)]
+            t = tabulate_local(loop, v, enc, scopes=[b])
+        else:
+            # no local: the byte is the scrutinee itself (`match data[cursor] { length @ 0..=127 => …`): the indexing
+            # expression is given each value in turn; the names it is bound to in the patterns stand for it
+            sm = re.search(r"\bmatch\s+(\*?\w+\[\s*\w+\s*\])\s*\{", loop)
+            names = sorted(set(re.findall(r"\b(\w+)\s*@", loop)))
+            t = {}
+            for k in range(256):
+                try:
+                    t[k] = rsx.run(_self_module(), loop, {}, enc, scopes=[b], inject_expr={sm.group(1).lstrip("*"): k})
+                except rsx.Unknown as ex:
+                    raise ValueError("cannot evaluate for the length byte %d: %s" % (k, ex))
         lit = set(k for k, o in t.items() if o.how == "value" and any("extend_from_slice" in e for e in o.effects))
         rep = set(k for k, o in t.items() if o.how == "value" and k not in lit and any(re.search(r"\brepeat\(|\.resize\(", e) for e in o.effects))
         eod = set(k for k, o in t.items() if o.how == "break" and not o.effects)
@@ -1937,7 +1949,7 @@ def main():
             raise ValueError("run classes: %d literal, %d repeat, %d end" % (len(lit), len(rep), len(eod)))
         base = None
         for m in re.finditer(r"(" + BYTE + r")\s*-\s*(?:usize::from\(\s*)?(\w+)", loop):
-            if is_alias(m.group(2), v, loop):
+            if any(is_alias(m.group(2), nm, loop) for nm in names):
                 base = m
                 break
         return str(len(lit)), str(min(rep)), str(int_value(base.group(1)))
